@@ -216,9 +216,22 @@ def response_table(ctx):
     f = 'COCSdoResponse'
     # the table is written in terms of the handler functions: a handler that no longer exists as a function (inlined,
     # renamed) is a vanished anchor (analysis broken), not a routing violation
-    m.need(f, 'COCSdoTransferFinalize', 'COCSdoUploadExpedited', 'COCSdoDownloadExpedited', 'COCSdoInitUploadSegmented',
-           'COCSdoUploadSegmented', 'COCSdoInitDownloadSegmented', 'COCSdoDownloadSegmented', 'COCSdoFinishDownloadSegmented',
-           'COCSdoAbort')
+    m.need(f, 'COCSdoTransferFinalize', 'COCSdoUploadExpedited', 'COCSdoInitUploadSegmented',
+           'COCSdoUploadSegmented', 'COCSdoInitDownloadSegmented', 'COCSdoDownloadSegmented', 'COCSdoAbort')
+    # two handlers are mere wrappers around the finalisation; a tree that inlined them into the response function is routed
+    # to what they did.  The frozen summary is re-derived whenever the wrapper still exists, so it cannot go stale silently.
+    WRAPPERS = {'COCSdoDownloadExpedited': ('COCSdoTransferFinalize',), 'COCSdoFinishDownloadSegmented': ('COCSdoTransferFinalize',)}
+    subst = {}
+    for w, summ in WRAPPERS.items():
+        if w in m.funcs:
+            pw = PEval(m, w)
+            pw.record_sets = False
+            pw.store_filter = lambda k, fld: False
+            got = set(tuple(c for c in t.call_names() if c.startswith('COCSdo')) for t in pw.run({'csdo': 1}))
+            if got != set([summ]):
+                ctx.broke(P, 'RF1-csdo-response: wrapper %s is no longer a plain call of %s (%s): update the routing table' % (w, summ, sorted(got)))
+        else:
+            subst[w] = summ
     T = dict((n, m.enum(n)) for n in ('CO_CSDO_TRANSFER_NONE', 'CO_CSDO_TRANSFER_UPLOAD', 'CO_CSDO_TRANSFER_DOWNLOAD',
                                       'CO_CSDO_TRANSFER_UPLOAD_SEGMENT', 'CO_CSDO_TRANSFER_DOWNLOAD_SEGMENT'))
     tbl = {}
@@ -262,6 +275,8 @@ def response_table(ctx):
                     else:
                         exp = None
                 key = '%s %02X more=%d' % (tname[17:], cmd, more)
+                if exp is not None and subst:
+                    exp = set(tuple(y for x in r for y in (subst[x] if x in subst else (x,))) for r in exp)
                 if exp is None or routes == exp:
                     ctx.ob(P, 'RF1-csdo-response', f, key, 'route %s' % sorted(routes), nontrivial=exp is not None)
                 else:
